@@ -81,7 +81,7 @@ def finite_support(a, terms, depth=0):
     rng = srt.range()
     if srt.domain() != z3.IntSort():
         return None
-    heap = a.decl().name().startswith('H') if z3.is_const(a) else False
+    heap = a.decl().name().startswith(('H0!', 'H!')) if z3.is_const(a) else False
     if heap and not isinstance(rng, z3.ArraySortRef):
         # entity fields: an arbitrary (but uniform) default outside the scope
         _fs[0] += 1
